@@ -773,7 +773,7 @@ def module_cases(draw):
             case["lam"] = draw(gen.qfloat(0.1, 3.0, 0.1))
             case["mu"] = draw(gen.qfloat(0.1, 3.0, 0.1))
             case["pair"] = list(draw(st.sampled_from([("lam", "mu"), ("lam", "G"), ("lam", "nu"), ("mu", "nu"), ("G", "nu"), ("G", "E"), ("mu", "E"),
-                                                      ("material",)])))
+                                                      ("material",), ("material",), ("material",)])))
     else:
         case["term"] = draw(st.sampled_from(TERMS2))
     case["h"], case["spacing_form"] = draw_spacing(draw, D, N)
@@ -852,6 +852,19 @@ def run_modules(case):
         zm = mods[red](mat3)
         if zm.ndim != 0 or float(zm) != 0.0:
             raise Violation("linear_nonzero", f"{cls.__name__} of a linear transformation tensor {lin}: {zm}")
+    # module instances are stateless functions of their constructor arguments and the input: later calls of the same
+    # instances (after the linear-transformation call above) with other content, and with the first field again
+    u2 = (u.flip(-1) * 0.5)
+    if u.shape[-1] >= 7:  # ... and another size (the default spacing depends on it)
+        u2 = u2[..., :-1]
+    u2 = u2.contiguous()
+    for red, fval in (("none", none), ("mean", mean), ("sum", total)):
+        f2 = call_term(term, u2, reduction=red, **kw)
+        v2 = max(float(f2.abs().max()), 1e-300)
+        r = max(r, check_close(mods[red](u2), f2, 4 * eps * v2 * (cnt if red == "sum" else 1), "module_vs_functional_later_call",
+                               f"{cls.__name__}(reduction={red!r}, mode={mode!r}): third call of one instance (other content) != functional form"))
+        r = max(r, check_close(mods[red](u), fval, 4 * eps * max(vmax, 1e-300) * (cnt if red == "sum" else 1), "module_vs_functional_later_call",
+                               f"{cls.__name__}(reduction={red!r}, mode={mode!r}): fourth call of one instance (first field again) != functional form"))
     labels = [f"term={term}", f"mode={mode}", f"D={D}", case["dtype"], f"N={N}", f"linear={case['linear']}"]
     if term == "elasticity":
         labels.append("pair=" + "+".join(case["pair"]))
